@@ -7,6 +7,8 @@
 //	j TARGET V schema | doc  serix MapDecode + JSONDecode of a document tree (json.go)
 //	m KW VW HEX              SerializableOrderedMap[uintKW,uintVW].Decode
 //	tu u64|a32 HEX           typeutils.*FromBytes
+//	nx hex|big|u64 "HEX      serix.DecodeHex / DecodeUint256 / DecodeUint64 called directly (numbers.go)
+//	jt TARGET V TEXT sch|doc serix.JSONDecode of a raw JSON text (numbers.go)
 //	x TARGET V HEX           serix.Decode of a catalogue type: property oracle only (answer "oracle-only")
 //
 // The calls are executed in a child process (same binary, "--child") with an address-space limit, so
@@ -71,6 +73,10 @@ func execOp(op string) result {
 		run = func() (string, string) { return execM(f), "" }
 	case "tu":
 		run = func() (string, string) { return execTU(f), "" }
+	case "nx":
+		run = func() (string, string) { return execNX(f), "" }
+	case "jt":
+		run = func() (string, string) { return execJT(f), "" }
 	case "x":
 		run = func() (string, string) { return "oracle-only", execX(f) }
 	default:
@@ -127,6 +133,10 @@ func panicSite(op string) string {
 			rawM(f)
 		case "x":
 			rawX(f)
+		case "nx":
+			rawNX(f)
+		case "jt":
+			rawJT(f)
 		}
 	}()
 	if len(msg) > 120 {
@@ -1179,6 +1189,10 @@ func inputLen(f []string) int {
 		h = f[3]
 	case "tu":
 		h = f[2]
+	case "nx":
+		return (len(f[2]) - 1) / 2
+	case "jt":
+		h = f[3]
 	default:
 		return 0
 	}
@@ -1303,8 +1317,8 @@ func oracle(r *hx.Run, op string, res result, mut string) {
 	}
 	k := uint64(64)
 	switch f[0] {
-	case "x", "m":
-		k = 256
+	case "x", "m", "jt":
+		k = 256 // jt: encoding/json builds the generic tree of the text (an interface value + slice / map header per node)
 	case "sr":
 		// the stream readers may allocate 5 bytes per byte of data + 16 KiB (C02_stream_alloc_linear); the
 		// harness adds the hex of the values read and the answer line (4 per byte): a bound of 16 per byte
@@ -1385,7 +1399,7 @@ func (b *batch) emit(op, mut string) {
 	}
 	nontrivial := false
 	switch f[0] {
-	case "j":
+	case "j", "jt":
 		nontrivial = true
 	case "x":
 		nontrivial = res.real != "err"
@@ -1665,6 +1679,16 @@ func main() {
 	for i := 0; i < 300*scale; i++ {
 		rng, _ := r.Rng.Fork()
 		b.emit("tu "+hx.Pick(rng, []string{"u64", "a32"})+" "+hx.Hex(rbytes(rng, 0, 40)), "random")
+	}
+	// the string decoders of numbers.go called directly
+	for i := 0; i < 1500*scale; i++ {
+		rng, _ := r.Rng.Fork()
+		b.emit(genNX(rng), "strings")
+	}
+	// JSONDecode on raw texts: not JSON, not an object, nested beyond the limit, cut / wrapped / doubled valid texts
+	{
+		rng, _ := r.Rng.Fork()
+		genJT(rng, b.emit)
 	}
 
 	// (4) JSON documents
